@@ -26,11 +26,17 @@ def CloseSim (src : Bytes) (bp : BP) : Prop := ∀ k ls p node sA sB, SR src k l
   S2 (fun _ _ sA' sB' => SR src k ls p sA' sB') (bpClose bp node sA) (bpClose bp (node + 1) sB)
 
 theorem appendLine_s2 {src k ls p} {sA sB : St} (h : SR src k ls p sA sB) (id : Nat) {s t : Segment}
-    (hst : SegRel src s t) :
+    (hst : SegRel src s t) (hne : s.start < s.stop ∨ rawK (sA.nodes.getD id default).kind = false) :
     S2 (fun _ _ sA' sB' => SR src k ls p sA' sB') (appendLine id s sA) (appendLine (id + 1) t sB) := by
   unfold appendLine
-  refine modNode_s2 h id _ _ (fun a b hab => ?_)
-  exact { hab with lines := SegsRel.append hab.lines hst, linesNil := rfl }
+  refine modNode_s2' h id _ _ (fun hab => ?_)
+  refine { hab with lines := SegsRel.append hab.lines hst, linesNil := rfl, rawNE := fun hr l hl => ?_ }
+  rcases List.mem_append.mp hl with hl | hl
+  · exact hab.rawNE hr l hl
+  · simp only [List.mem_singleton] at hl
+    rcases hne with hne | hne
+    · rw [hl]; exact hne
+    · rw [hne] at hr; cases hr
 
 theorem paragraphOpen_sim (src : Bytes) : OpenSim src .paragraph := by
   intro k ls p parent sA sB h
@@ -67,7 +73,7 @@ theorem paragraphOpen_sim (src : Bytes) : OpenSim src .paragraph := by
       (fun n m sA4 sB4 hq => ?_)
     obtain ⟨_, hm, hn0, h4⟩ := hq
     subst hm
-    refine S2.bind (appendLine_s2 h4 n hseg) (fun _ _ sA5 sB5 h5 => ?_)
+    refine S2.bind (appendLine_s2 h4 n hseg (.inl hlt)) (fun _ _ sA5 sB5 h5 => ?_)
     have hlen : (shK k a).len = a.len := by simp only [Segment.len, shK]; omega
     have hst : a.stop = lineEnd src ls := by rw [t1]; rfl
     have hsa : (p : Int) ≤ a.start := by have : (segA src ls p).start = p := rfl; omega
@@ -97,7 +103,7 @@ theorem paragraphContinue_sim (src : Bytes) : ContinueSim src .paragraph := by
       · exfalso; apply hc; simp [viewA, Nat.not_lt.mpr h', isBlank]
     have hin := segA_in hi
     have hseg : SegRel src (segA src ls p) (shK k (segA src ls p)) := segRel_of_in hin (by simp [segA]; exact hplt)
-    refine S2.bind (appendLine_s2 h1 node hseg) (fun _ _ sA5 sB5 h5 => ?_)
+    refine S2.bind (appendLine_s2 h1 node hseg (.inl (by simp only [segA]; omega))) (fun _ _ sA5 sB5 h5 => ?_)
     have hlen : (shK k (segA src ls p)).len = (segA src ls p).len := by simp only [Segment.len, shK]; omega
     refine S2.bind (advance_s2 h5 (by rw [hlen]) (by simp only [Segment.len, segA]; omega) ?_) (fun _ _ sA6 sB6 h6 => ?_)
     · refine ⟨hi.line, by have := hi.ge; omega, ?_, fun e => ?_⟩
